@@ -8,8 +8,11 @@
                                         TransitionGraphSupport._change_state, add_states/add_transition
     transitions/extensions/asyncio.py   AsyncMachine.__init__/add_model (`_transition_queue_dict`),
                                         _process_async
+    transitions/extensions/asyncio.py   AsyncMachine.__getstate__/__setstate__ (per-model queues)
     transitions/extensions/factory.py   the MRO of the combined classes (GraphMachine precedes
-                                        LockedMachine / AsyncMachine in every predefined combination)
+                                        LockedMachine / AsyncMachine in every predefined combination
+                                        and, as repaired, hands over to the next __getstate__ /
+                                        __setstate__ in the MRO)
 
   Objects are natural numbers (their `id`).  A table whose keys are *integers* (`id(model)`) keeps its
   keys through pickling; a reference to an *object* is translated by pickle to the new object.  That
@@ -35,6 +38,11 @@ structure Kind where
   /-- async class: `AsyncTransition._change_state` marks the previous state on the graph but never
       the new active one (the sync `TransitionGraphSupport._change_state` does) -/
   asyncio : Bool := false
+  /-- the locked hierarchical classes override `_locked_method` so that `trigger_event` holds the
+      contexts registered for the model (`model_context_map.get(id(model)) or machine_context`,
+      /repo 2c648fd); read off the live class by the harness.  Without the override the event holds
+      `machine_context` only. -/
+  nestedModelCtx : Bool := false
   deriving DecidableEq, Repr, Inhabited
 
 abbrev Tab (β : Type) := List (Nat × β)
@@ -72,26 +80,39 @@ structure Dict where
   store : Option (Tab (List Nat))
   /-- `model_graphs`; `none` = blacklisted -/
   graphs : Option (Tab Nat)
-  qdict : Tab (List Nat)
+  /-- `_transition_queue_dict` as a dict (integer keys); `none` = replaced by the pair list -/
+  qdict : Option (Tab (List Nat))
+  /-- `_transition_queue_dict` as the list `[(model, queue)]` of `AsyncMachine.__getstate__`:
+      first components are the model *objects* -/
+  qstore : Option (Tab (List Nat))
   deriving DecidableEq, Repr, Inhabited
 
 /-- no `__getstate__`: pickle takes `__dict__` as it is -/
 def defaultGetstate (M : PM) : Dict :=
   { models := M.models, mstate := M.mstate, mctx := M.mctx, ctx := some M.ctx, store := none,
-    graphs := some M.graphs, qdict := M.qdict }
+    graphs := some M.graphs, qdict := some M.qdict, qstore := none }
 
 /-- `LockedMachine.__getstate__`: drop the id-keyed map, store the contexts keyed by model object -/
 def lockedGetstate (M : PM) : Dict :=
   { defaultGetstate M with
     ctx := none, store := some (M.models.map fun m => (m, lookupD m M.ctx)) }
 
-/-- `GraphMachine.__getstate__`: `__dict__` minus `_pickle_blacklist = ['model_graphs']` -/
-def graphGetstate (M : PM) : Dict := { defaultGetstate M with graphs := none }
+/-- `AsyncMachine.__getstate__` when `has_queue == 'model'`: the queues next to their models
+    (every registered model has a queue: `add_model` creates it; see `WF`) -/
+def asyncGetstate (M : PM) : Dict :=
+  { defaultGetstate M with
+    qdict := none, qstore := some (M.models.map fun m => (m, lookupD m M.qdict)) }
 
-/-- attribute lookup along the MRO: `GraphMachine` comes first in every predefined graph class,
-    and its `__getstate__` does not call the next one -/
+/-- the `__getstate__` found after `GraphMachine` in the MRO (or the only one): `LockedMachine`'s for
+    the locked classes, `AsyncMachine`'s for the async ones (a plain copy of `__dict__` unless
+    `queued='model'`), none otherwise.  No predefined class is both locked and async. -/
+def baseGetstate (k : Kind) (M : PM) : Dict :=
+  if k.locked then lockedGetstate M else if k.qmodel then asyncGetstate M else defaultGetstate M
+
+/-- `GraphMachine.__getstate__` (as repaired: it asks the next class in the MRO for the state and
+    removes `_pickle_blacklist = ['model_graphs']` from it) in front of the base one -/
 def getstate (k : Kind) (M : PM) : Dict :=
-  if k.graph then graphGetstate M else if k.locked then lockedGetstate M else defaultGetstate M
+  if k.graph then { baseGetstate k M with graphs := none } else baseGetstate k M
 
 /-- pickle.dumps → pickle.loads: every *object reference* is replaced by the new object `ρ o`;
     integers (the keys of the id-keyed tables) are values and stay what they are -/
@@ -102,12 +123,13 @@ def transport (ρ : Nat → Nat) (d : Dict) : Dict :=
     ctx := d.ctx.map fun t => t.map fun e => (e.1, e.2.map ρ)
     store := d.store.map fun t => t.map fun e => (ρ e.1, e.2.map ρ)
     graphs := d.graphs
-    qdict := d.qdict }
+    qdict := d.qdict
+    qstore := d.qstore.map fun t => t.map fun e => (ρ e.1, e.2) }
 
 /-- no `__setstate__`: `__dict__.update(state)` -/
 def defaultSetstate (d : Dict) : PM :=
   { models := d.models, mstate := d.mstate, mctx := d.mctx, ctx := d.ctx.getD [],
-    graphs := d.graphs.getD [], qdict := d.qdict }
+    graphs := d.graphs.getD [], qdict := d.qdict.getD [] }
 
 /-- `LockedMachine.__setstate__`: a new map, one entry per model under its *new* id, taken from the
     store (which `__getstate__` filled for exactly these models). -/
@@ -115,14 +137,20 @@ def lockedSetstate (d : Dict) : PM :=
   { defaultSetstate d with
     ctx := d.models.map fun m => (m, (alookup m (d.store.getD [])).getD []) }
 
-/-- `GraphMachine.__setstate__`: `model_graphs = {}`, then `_get_graph(model)` per model, which
-    finds no graph and builds a fresh one styled with the model's current state -/
-def graphSetstate (d : Dict) : PM :=
-  let M := defaultSetstate d
-  { M with graphs := d.models.map fun m => (m, M.stateOf m + 1) }
+/-- `AsyncMachine.__setstate__` when `has_queue == 'model'`:
+    `{id(mod): queue for mod, queue in self._transition_queue_dict}` -/
+def asyncSetstate (d : Dict) : PM :=
+  { defaultSetstate d with qdict := d.qstore.getD [] }
 
+def baseSetstate (k : Kind) (d : Dict) : PM :=
+  if k.locked then lockedSetstate d else if k.qmodel then asyncSetstate d else defaultSetstate d
+
+/-- `GraphMachine.__setstate__` (as repaired: the next `__setstate__` in the MRO first), then
+    `model_graphs = {}` and `_get_graph(model)` per model, which finds no graph and builds a fresh
+    one styled with the model's current state -/
 def setstate (k : Kind) (d : Dict) : PM :=
-  if k.graph then graphSetstate d else if k.locked then lockedSetstate d else defaultSetstate d
+  let M := baseSetstate k d
+  if k.graph then { M with graphs := M.models.map fun m => (m, M.stateOf m + 1) } else M
 
 /-- `pickle.loads(pickle.dumps(machine))` with identity map `ρ` -/
 def roundtrip (k : Kind) (ρ : Nat → Nat) (M : PM) : PM := setstate k (transport ρ (getstate k M))
@@ -162,7 +190,11 @@ inductive Obs
     hierarchical classes) the event goes through the public `trigger_event`, which
     `LockedMachine.__getattribute__` wraps in `_locked_method`: `machine_context` only -/
 def contexts (k : Kind) (M : PM) (m : Nat) : List Nat :=
-  if k.locked then (if k.nested then M.mctx else lookupD m M.ctx) else []
+  if k.locked then
+    (if k.nested then
+      (if k.nestedModelCtx then (if (lookupD m M.ctx).isEmpty then M.mctx else lookupD m M.ctx) else M.mctx)
+     else lookupD m M.ctx)
+  else []
 
 /-- reading a missing key of the `defaultdict` inserts it -/
 def touch (k : Kind) (M : PM) (m : Nat) : PM :=
@@ -224,9 +256,9 @@ def Ev.onModels (models : List Nat) : Ev → Prop
 /-- every context object a machine can enter -/
 def lockIds (M : PM) : List Nat := M.mctx ++ M.ctx.flatMap (·.2)
 
-/-- the class re-keys every id-keyed table it has: false exactly for the locked graph classes
-    (`GraphMachine.__getstate__/__setstate__` shadow `LockedMachine`'s) and for `queued='model'` -/
-def Kind.rekeys (k : Kind) : Bool := !(k.graph && k.locked) && !k.qmodel
+/-- the feature combinations `MachineFactory` offers: no class is both locked and async, and
+    `queued='model'` exists for the async classes only -/
+def Kind.predefined (k : Kind) : Bool := !(k.locked && k.asyncio) && (!k.qmodel || k.asyncio)
 
 end Pickle
 end TM
